@@ -1,6 +1,6 @@
 (* C03 Canonical string has exactly the documented shape and escaping *)
 Load "coq/props/Hdr".
-From PM Require Import C03.
+From PM Require Import C03 Quals More.
 Lemma src_cfg_ok : cfg_ok cfg. Proof. sc. Qed.
 Theorem C03_escape_sets : forall (p : pos) (b : byte), should_encode (set_of cfg p) b = spec_escaped p b.
 Proof. apply C03_sets. vm_compute. reflexivity. Qed.
@@ -29,3 +29,11 @@ Print Assumptions C03_shape_typed.
 Theorem C03_component_printable : forall p x, Forall (fun b => printable b = true) (penc (set_of cfg p) x).
 Proof. apply penc_printable. vm_compute. reflexivity. Qed.
 Print Assumptions C03_component_printable.
+(* the whole canonical string is printable ASCII, for every type parameter whose type string is valid *)
+Theorem C03_whole_string_printable : forall (T E : Type) (sh : shape T E) t p, valid_type cfg (sh_type sh t) = true -> Forall (fun b => printable b = true) (format cfg sh t p).
+Proof. intros T E sh t p. apply C03_printable; vm_compute; reflexivity. Qed.
+Print Assumptions C03_whole_string_printable.
+(* the key=value pairs are in strictly ascending key order for every collection satisfying the invariant (C04, C11) *)
+Theorem C03_pairs_in_ascending_key_order : forall q, QInv cfg q -> Sorted.StronglySorted (fun a b => bcmp a b = Lt) (map fst q).
+Proof. apply C03_keys_ascending. Qed.
+Print Assumptions C03_pairs_in_ascending_key_order.
